@@ -39,6 +39,11 @@ def call_index(unit, element, w, c, rules, same_id=None, foreign_name=None, used
             ch.add_child(g)
             if k % 2:
                 g.add_child(Node(c))
+    if below or moved:
+        # ... and tails (as an import with clean=False leaves them on every element of a pretty-printed document; text after an
+        # inline element of mixed content): a position is a matter of the names
+        for k, ch in enumerate(p.children):
+            ch.tail = ["\n    ", " ", "tail text", "\t"][k % 4]
     r = rule.get_rule(element) if element else rule.Rule(unit)
     earlier = None
     if used:
